@@ -202,6 +202,14 @@ func (sr *StreamReader) ReadBinary() ([]byte, error) {
 		return []byte{}, nil
 	}
 
+	return sr.readBytes(length)
+}
+
+// readBytes reads exactly length (> 0) bytes. Lengths above
+// bytesAllocThreshold are copied into a dynamically resizing buffer so that
+// the memory allocated is bounded by the data actually present rather than by
+// the length the input claims.
+func (sr *StreamReader) readBytes(length int32) ([]byte, error) {
 	if length > bytesAllocThreshold {
 		var buf bytes.Buffer
 		_, err := io.CopyN(&buf, sr.reader, int64(length))
@@ -214,7 +222,7 @@ func (sr *StreamReader) ReadBinary() ([]byte, error) {
 	}
 
 	bs := make([]byte, length)
-	_, err = sr.read(bs)
+	_, err := sr.read(bs)
 	return bs, err
 }
 
